@@ -202,7 +202,7 @@ def create_redist_dict(
     return group, group_size, group_resource
 
   def is_outlier(score, total_score, total_resource, dim):
-    unit_rsc = total_resource / total_score if total_score else 0.0
+    unit_rsc = total_resource / total_score if total_score > 0 else 0.0
     allocated_rsc = rd(score * unit_rsc) - 1
     return allocated_rsc > dim
 
@@ -225,7 +225,7 @@ def create_redist_dict(
         group_resource -= (dim - 1)
         total_score -= pair[1]
       else:
-        unit_rsc = group_resource / total_score if total_score else 0.0
+        unit_rsc = group_resource / total_score if total_score > 0 else 0.0
         realloc.update({pair[0]: rd(pair[1] * unit_rsc)})
         group_resource -= (rd(pair[1] * unit_rsc) - 1)
         total_score -= pair[1]
